@@ -196,6 +196,9 @@ def renderings(spec):
 
 
 def names_spec(message, spec):
+    if not spec['resname'] and spec['resid'] is None and not spec['chain'] and 'specified by ""' in message:
+        # a request without any part (or with only an explicitly empty chain) has no name to echo
+        return True
     for text in renderings(spec):
         if re.search('(?<![%s])%s(?![%s])' % (_SPEC_CHARS, re.escape(text), _SPEC_CHARS), message):
             return True
@@ -324,7 +327,7 @@ def snapshot(mol):
 
 
 def run_annotate(system, modifications, mutations):
-    """Returns dict(exc=None | exception, warnings=[...])."""
+    """Returns (NameError or None, messages of the records of level >= WARNING)."""
     with capture_logs() as logs:
         try:
             AnnotateMutMod(modifications=[(s['text'], s['target']) for s in modifications],
